@@ -20,7 +20,7 @@ def run(ctx):
     selectcheck.record_and_validate(ctx, 'order', ctx.pick(1500, 20000), 30)
     selectcheck.typed_tables_leg(ctx, 'order', ctx.pick(120, 1500))
     # ordering over FROM (subquery): ties keep the order the inner query produced
-    selectcheck.record_and_validate(ctx, 'nested', ctx.pick(500, 8000), 16)
+    selectcheck.record_and_validate(ctx, 'nested', ctx.pick(800, 8000), 16)
     ctx.exhaustive = False
 
 
